@@ -8,9 +8,10 @@ import copy
 import random
 import warnings
 import numpy as np
-from . import core
+from . import core, pylite_tie
 from .core import Case, cD, clist, cbool, cN, cpair
 
+obligations = pylite_tie.c12_obligations   # source-regenerated ties (harness/pylite_tie.py, pylite_score.v.tmpl)
 ID = "C12"
 PROPS_FILE = "Props/C12.v"
 IMPORTS = "From Verde Require Import Model.Scoring Model.ScoringCases."
